@@ -21,7 +21,14 @@ def main():
                 bad += 1
         if not os.path.exists(os.path.join(vlib.HARNESS, "go.sum")) or True:
             shutil.copy(os.path.join(vlib.REPO, "go.sum"), os.path.join(vlib.HARNESS, "go.sum"))
-        ov = overlay.write_overlay(sc, "ov.json")
+        # (the accessor files that single harnesses need on top of the common ones are part of this overlay)
+        opt = os.path.join(vlib.HARNESS, "overlay_opt")
+        extra = {}
+        for pkg in sorted(os.listdir(opt)) if os.path.isdir(opt) else []:
+            for f in sorted(os.listdir(os.path.join(opt, pkg))):
+                if f.endswith(".go"):
+                    extra[os.path.join(pkg, f)] = os.path.join(opt, pkg, f)
+        ov = overlay.write_overlay(sc, "ov.json", add_files=extra)
         # warm the cache: repository packages + every harness command that builds without generated files
         vlib.go(["build", "./..."], cwd=vlib.REPO, check=False)
         for cmd in sorted(os.listdir(os.path.join(vlib.HARNESS, "cmd"))):
